@@ -91,6 +91,7 @@ type Exec struct {
 	elemInfo   map[string]elemRef   // element address -> (backing array, index)
 	appendInfo map[string]*appendRec // backing array allocated by append -> its sources
 	inferred   map[string]*LoopSpec  // candidate invariants of loops in inlined helpers (houdini.go)
+	skolems    map[*Clause]Term      // bound variable of each `forall` ensures clause of the function under verification
 	curState   *State                // the state roleSite resolves inlined parameters in
 	houdiniRetry bool                // a candidate could not be evaluated and was dropped: run again
 }
@@ -1693,6 +1694,13 @@ func (x *Exec) checkPost(st *State, res Val, pos token.Pos) {
 		if c.Label != "" {
 			d = c.Label
 		}
+		if c.Bound != "" {
+			// proved for an arbitrary value: a constant about which nothing is known
+			vars[c.Bound] = intVal(x.skolemFor(c))
+			x.oblige(st, "post", d, env.evalBool(c.Expr), x.propsFor(c), c.Text, pos)
+			delete(vars, c.Bound)
+			continue
+		}
 		parts := x.splitConj(c.Expr, 0)
 		if len(parts) == 1 {
 			x.oblige(st, "post", d, env.evalBool(c.Expr), x.propsFor(c), c.Text, pos)
@@ -1977,4 +1985,28 @@ func (x *Exec) reveals(name string) bool {
 		}
 	}
 	return false
+}
+
+// skolemFor: the constant standing for the bound variable of a quantified postcondition of the function
+// under verification. All of them are created together (in clause order) so that every path sees the same.
+func (x *Exec) skolemFor(c *Clause) Term {
+	if x.skolems == nil {
+		x.skolems = map[*Clause]Term{}
+		for _, e := range x.spec.Ens {
+			if e.Bound != "" {
+				x.skolems[e] = Term(x.d.FreshConst("sk_"+e.Bound, "Int"))
+			}
+		}
+	}
+	return x.skolems[c]
+}
+
+func (x *Exec) skolemTerms() []Term {
+	var out []Term
+	for _, e := range x.spec.Ens {
+		if e.Bound != "" {
+			out = append(out, x.skolemFor(e))
+		}
+	}
+	return out
 }
